@@ -194,9 +194,11 @@ def r11_4(ctx: Ctx) -> None:
     f = ctx.prog.func("compressor", "SevenZipDecompressor.__init__")
     cfg = cfg_of(f.node)
     raises = [n for n in walk(f.node) if isinstance(n, ast.Raise) and isinstance(n.exc, ast.Call) and dotted(n.exc.func) == "PasswordRequired"]
-    ctx.floor("R11.4", len(raises), 1, "raise PasswordRequired")
     tests = [n for n in cfg.nodes if n.kind == "test" and any(isinstance(c, ast.Call) and attr_tail(c) == "needs_password" for c in ast.walk(n.ast))]
-    ctx.floor("R11.4", len(tests), 1, "needs_password test")
+    if not raises or not tests:
+        ctx.fail("R11.4", f, f.node, "SevenZipDecompressor.__init__ has no `needs_password(coders) and password is None -> raise PasswordRequired` check before decoders are built",
+                 construct="PasswordRequired check")
+        return
     t = tests[0]
     good_cond = any(q.is_none_test(a) is not None and q.is_none_test(a)[1] and norm(q.is_none_test(a)[0]) == "password" for a, pol in q.atoms(t.ast, True) if pol) and \
         any(isinstance(a, ast.Call) and attr_tail(a) == "needs_password" and norm(a.args[0]) == f.params[1] for a, pol in q.atoms(t.ast, True) if pol)
